@@ -2,6 +2,7 @@ import CalVerif.Prim.Wire
 import CalVerif.Model.Ovba
 import CalVerif.Spec.OvbaContainer
 import CalVerif.Spec.OvbaDir
+import CalVerif.Model.OvbaProject
 /-! Driver for C18 (one request line → one reply line).
 
     `dec <hex>`            → `ok <hex>` | `err:<class>` | `panic:<site>` | `fuel`  model of `decompress_stream`
@@ -13,6 +14,8 @@ import CalVerif.Spec.OvbaDir
     `dir <hex>`            → `ok <cp> <refs> <mods>` | `err:<class>` | `panic`    model of the `dir` stream walk
     `proj <dir|?> <streams>` → `ok <cp> <refs> <modules>` | …                     model of `VbaProject::from_cfb`
     `cps`                  → the code pages the model accepts, comma separated
+    `encs`                 → the model's code page table `id=encoding name`, comma separated
+    `projfile <hex>`       → `VbaProject::new` on a whole compound file (C13 model ∘ C18 model; ASCII stream names)
     `dirser <19 fields>`   → `<wf 0|1> <hex of serDir p>`: the Lean spec encoder of the dir stream (`dir_walk` is about
                              these bytes); fields: sysKind compat|~ lcid lcidInvoke codepage name doc docU help1 help2
                              helpContext libFlags verMajor verMinor constants constantsU cookie refs mods, where
@@ -180,6 +183,15 @@ def handle (line : String) : String :=
       | r => tagOf r
     | _, _ => "bad-request"
   | ["cps"] => ",".intercalate (knownCodepages.map toString)
+  | ["encs"] => ",".intercalate (codepageTable.map fun x => s!"{x.1}={x.2}")
+  | ["projfile", h] => match bytesOfHex h with
+    | some file =>
+      -- stream names decoded byte → char (exact for ASCII names; the harness asks only for those)
+      match vbaProjectNew (fun b => b.map fun x => Char.ofNat x.toNat) file file.length with
+      | .ok vp =>
+        s!"ok {vp.codepage} {showList (vp.references.map showRef)} {showList (vp.modules.map fun m => s!"{hexOrDash m.1}:{hexOrDash m.2}")}"
+      | r => tagOf r
+    | none => "bad-request"
   | "dirser" :: w => match parseDir w with
     | some p => s!"{if p.wf then 1 else 0} {hexOrDash (serDir p)}"
     | none => "bad-request"
